@@ -187,6 +187,92 @@ def _partition(d):
     return None
 
 
+ABSORB_LENGTHS = (0.3, 0.75, 1.5)
+
+
+def layer_absorb(thorough):
+    for tag, meta, case_tg, _ in c01.layer_structure(thorough):
+        for minlen in ABSORB_LENGTHS:
+            yield ("C", meta, case_tg, minlen)
+
+
+def check_absorb(case):
+    """A non-default (large) minimumIntervalLength together with span overrides: whatever is absorbed, every interval tier of the written
+    file still tiles exactly the file's [xmin, xmax] with positive-length intervals, the file span is the requested one, the labelled
+    intervals that remain are the tier's own in order, and the four formats agree."""
+    tag, meta, case_tg, minlen = case
+    tg = c01.build(case_tg)
+    fn = os.path.join(scratch_dir(), "c02a.TextGrid")
+    viols, n, oc = [], 0, []
+    times = [v for t in tg.tiers for e in t.entries for v in e[:-1]]
+    menu = [("none", None, None), ("min-below", tg.minTimestamp - 1.0, None), ("max-above", None, tg.maxTimestamp + 1.0),
+            ("both", tg.minTimestamp - 1.0, tg.maxTimestamp + 1.0), ("min-just-below", tg.minTimestamp - 0.25, None),
+            ("max-just-above", None, tg.maxTimestamp + 0.25)]
+    if times and min(times) > tg.minTimestamp:
+        menu.append(("narrow-min-half", (tg.minTimestamp + min(times)) / 2, None))
+        menu.append(("narrow-min-close", min(times) - 0.125, None))
+    if times and max(times) < tg.maxTimestamp:
+        menu.append(("narrow-max-half", None, (tg.maxTimestamp + max(times)) / 2))
+        menu.append(("narrow-max-close", None, max(times) + 0.125))
+    for ov, omin, omax in menu:
+        fmin = tg.minTimestamp if omin is None else omin
+        fmax = tg.maxTimestamp if omax is None else omax
+        if fmax - fmin < minlen:
+            continue    # a file shorter than the threshold cannot both be tiled and hold no interval shorter than the threshold
+        decoded = {}
+        for fmt in FMTS:
+            n += 1
+            cfg = f"save(format={fmt}, includeBlankSpaces=True, minTimestamp={omin}, maxTimestamp={omax}, minimumIntervalLength={minlen})"
+            st, r, _ = call(tg.save, fn, fmt, True, omin, omax, minlen, "silence")
+            if st == "exc":
+                viols.append(Viol("save-raised:" + type(r).__name__, f"{cfg} of {case_tg} raised {r!r}"))
+                continue
+            with open(fn, encoding="utf-8") as fd:
+                text = fd.read()
+            try:
+                d = praatfmt.decode(text, fmt)
+            except praatfmt.FormatError as e:
+                viols.append(Viol("independent-reader-rejects", f"{cfg}: {e}   [textgrid {case_tg}]"))
+                continue
+            msg = None
+            if not (c01.teq(fmin, d["xmin"]) and c01.teq(fmax, d["xmax"])):
+                msg = f"file span ({d['xmin']!r},{d['xmax']!r}) != ({fmin!r},{fmax!r})"
+            msg = msg or _partition(d)
+            if msg is None:
+                for t, src in zip(d["tiers"], tg.tiers):
+                    if t["class"] != "IntervalTier":
+                        continue
+                    have = [tuple(e) for e in t["entries"] if e[-1] != ""]
+                    want = [tuple(e) for e in src.entries if e[-1] != ""]
+                    it = iter(want)
+                    for h in have:   # what remains labelled is a subsequence of the tier's labelled entries, boundaries moved by less than minlen
+                        for w in it:
+                            if w[-1] == h[-1] and abs(w[0] - h[0]) < minlen and abs(w[1] - h[1]) < minlen:
+                                break
+                        else:
+                            msg = f"tier {t['name']!r}: labelled interval {h!r} in the file is not one of the tier's {want!r} (moved by < {minlen})"
+                            break
+                    long_enough = [w for w in want if w[1] - w[0] >= minlen]
+                    if msg is None and [w[-1] for w in long_enough] != [h[-1] for h in have if any(h[-1] == w[-1] for w in long_enough)][:len(long_enough)] \
+                            and not all(any(h[-1] == w[-1] for h in have) for w in long_enough):
+                        msg = f"tier {t['name']!r}: a labelled interval of length >= {minlen} is missing from the file: tier {want!r}, file {have!r}"
+            if msg:
+                viols.append(Viol("file-content", f"{cfg}: {msg}   [textgrid {case_tg}]"))
+                oc.append("!")
+            else:
+                oc.append("=")
+            decoded[fmt] = d
+        if len(decoded) == 4:
+            for fmt in ("long_textgrid", "short_textgrid"):
+                m = _same(decoded[fmt], decoded["textgrid_json"], False)
+                if m:
+                    viols.append(Viol("formats-disagree", f"{fmt} and textgrid_json decode differently (override={ov}, minimumIntervalLength={minlen}): {m}  [{case_tg}]"))
+            m = _same(decoded["json"], decoded["textgrid_json"], True)
+            if m:
+                viols.append(Viol("formats-disagree", f"json and textgrid_json decode differently (override={ov}, minimumIntervalLength={minlen}): {m}  [{case_tg}]"))
+    return n, "".join(sorted(set(oc))), (c01._shape(case_tg), minlen), viols
+
+
 def check_shared(case):
     """two textgrids that hold the SAME tier object; a mutator on the first; the second is written: the file carries the second textgrid's
     names, order and content (what tg2.tierNames / getTier say), in every format"""
@@ -271,6 +357,11 @@ def parts(tier):
         InputPart("structure", lambda: c01.layer_structure(not quick), check,
                   rule="all small structures (0-3 entries, empty labels, tier spans narrower/wider than the file span, tier order)",
                   bounds={}, snippet=c01._snippet, chunk=8),
+        InputPart("partition-under-absorption", lambda: layer_absorb(not quick), check_absorb,
+                  rule="all small structures x minimumIntervalLength in %s x up to 10 span overrides (none, widening by 1 and by 0.25, narrowing to "
+                       "half and to 0.125 before / after the outermost entry) x 4 formats, blank filling on: interval tiers tile the file span "
+                       "with positive-length intervals, the span is the requested one, surviving labelled intervals are the tier's own in order, "
+                       "formats agree" % (ABSORB_LENGTHS,), bounds={"lengths": len(ABSORB_LENGTHS)}, snippet=c01._snippet, chunk=8),
         InputPart("keywords", layer_keywords_everywhere, check,
                   rule="the formats' own keywords in every label and name position, and in all positions at once: the WRITER must "
                        "stay well-formed for the independent reader (the known reader findings of C01/C03 do not apply here)",
